@@ -467,7 +467,7 @@ def main(argv=None):
 
     n_obl = len(all_obls)
     n_proved = sum(1 for o in all_obls if o['proved'] == o['instances'])
-    known_names = {o['name'] for _, o in known_hits}
+    known_names = {o['name'] for _, o in known_hits if not o['name'].startswith('bounded:')}
     if n_obl == 0 and not limits:
         errors.append('zero obligations generated')
 
